@@ -149,20 +149,31 @@ func (p *Program) inferMailbox(n *types.Named, hf *types.Var) *mboxRoles {
 		// the election may live in a helper of the mailbox ("schedule()") shared by Enqueue and Resume
 		if _, isCall := in.(*ssa.Call); isCall {
 			if h := c.StaticCallee(); h != nil && h != r.Enqueue && h.Signature.Recv() != nil && namedOf(h.Signature.Recv().Type()) == n {
-				for _, hb := range h.Blocks {
-					for _, hin := range hb.Instrs {
-						if _, isGo := hin.(*ssa.Go); isGo {
-							if f := callOf(hin).StaticCallee(); f != nil {
-								r.Consumer = f
+				var scanHelper func(h *ssa.Function, depth int)
+				scanHelper = func(h *ssa.Function, depth int) {
+					for _, hb := range h.Blocks {
+						for _, hin := range hb.Instrs {
+							if _, isGo := hin.(*ssa.Go); isGo {
+								if f := callOf(hin).StaticCallee(); f != nil {
+									r.Consumer = f
+								}
+								continue
 							}
-						}
-						if a := atomicCall(hin); a != nil && a.Field != nil && a.Op == "CAS" && len(a.Args) == 2 {
-							r.Status = a.Field
-							r.IdleVal, _ = constInt(a.Args[0])
-							r.ProcVal, _ = constInt(a.Args[1])
+							if a := atomicCall(hin); a != nil && a.Field != nil && a.Op == "CAS" && len(a.Args) == 2 {
+								r.Status = a.Field
+								r.IdleVal, _ = constInt(a.Args[0])
+								r.ProcVal, _ = constInt(a.Args[1])
+							}
+							// ... or one level further down ("schedule()" → "tryAcquire()")
+							if hc, isC := hin.(*ssa.Call); isC && depth < 2 {
+								if h2 := hc.Call.StaticCallee(); h2 != nil && h2 != h && h2.Signature.Recv() != nil && namedOf(h2.Signature.Recv().Type()) == n {
+									scanHelper(h2, depth+1)
+								}
+							}
 						}
 					}
 				}
+				scanHelper(h, 0)
 			}
 		}
 		// push: call whose receiver is a load of a field of the mailbox and that passes the envelope
@@ -231,6 +242,35 @@ func (p *Program) inferMailbox(n *types.Named, hf *types.Var) *mboxRoles {
 				}
 			}
 		}
+	}
+	// a handler loop split into per-queue helpers ("drainSystem()", "handleNextUser()") is still one loop: the loop is the
+	// mailbox method from which its single-use helpers are called, analysed with those helpers spliced in
+	for round := 0; round < 2; round++ {
+		var lifted []*ssa.Function
+		seenL := map[*ssa.Function]bool{}
+		for _, l := range r.Loops {
+			up := l
+			if l != r.Consumer && l.Signature.Recv() != nil && namedOf(l.Signature.Recv().Type()) == n {
+				var callers []*ssa.Function
+				if node := p.CG.Nodes[l]; node != nil {
+					for _, e := range node.In {
+						if e.Caller.Func != l && p.inModule(e.Caller.Func) {
+							callers = append(callers, e.Caller.Func)
+						}
+					}
+				}
+				if len(callers) == 1 && callers[0].Signature.Recv() != nil && namedOf(callers[0].Signature.Recv().Type()) == n && callers[0] != r.Consumer && callers[0].Parent() == nil {
+					if _, isGoTarget := callers[0], false; !isGoTarget {
+						up = callers[0]
+					}
+				}
+			}
+			if !seenL[up] {
+				seenL[up] = true
+				lifted = append(lifted, up)
+			}
+		}
+		r.Loops = lifted
 	}
 	for name, v := range map[string]*types.Var{"system queue": r.SysQ, "user queue": r.UsrQ, "system counter": r.SysCnt, "user counter": r.UsrCnt, "status": r.Status, "paused": r.Paused} {
 		if v == nil {
@@ -457,7 +497,22 @@ func c01Roles(p *Program, r *Report) {
 
 // workNodes: call nodes of fn that are, or synchronously reach, a HandleEnvelop invoke of this mailbox.
 func (p *Program) workNodes(m *mboxRoles, fn *ssa.Function) map[int]bool {
-	g := p.ig(fn)
+	return p.workNodesG(m, p.ig(fn))
+}
+
+// consumerGraph: the consumer with its single-use helpers (a "hasProcessable()" predicate) spliced in; the handler loops stay
+// opaque calls — they are the "work" the rules speak about.
+func (m *mboxRoles) consumerGraph(p *Program) *IG {
+	skip := map[*ssa.Function]bool{}
+	for _, l := range m.Loops {
+		if l != m.Consumer {
+			skip[l] = true
+		}
+	}
+	return p.igxSkip(m.Consumer, skip)
+}
+
+func (p *Program) workNodesG(m *mboxRoles, g *IG) map[int]bool {
 	loops := map[*ssa.Function]bool{}
 	for _, l := range m.Loops {
 		loops[l] = true
@@ -494,8 +549,8 @@ func c01Election(p *Program, r *Report) {
 		}
 		// (a') outside the consumer, a successful election spawns the consumer on every path
 		for _, fn := range m.Methods {
-			if fn == m.Consumer {
-				continue
+			if fn == m.Consumer || thinAtomicBody(fn) != nil {
+				continue // a one-line wrapper of the CAS is judged where it is called
 			}
 			g := p.ig(fn)
 			cas, succ, _ := p.casEdges(g, m.Status, &m.ProcVal)
@@ -516,8 +571,8 @@ func c01Election(p *Program, r *Report) {
 				"from the success edge of CAS(status, idle→processing) every path to the exit passes `go consumer`")
 		}
 		// (b) in the consumer, work after a Store(status, idle) is reachable only through a CAS success edge
-		g := p.ig(m.Consumer)
-		work := p.workNodes(m, m.Consumer)
+		g := m.consumerGraph(p)
+		work := p.workNodesG(m, g)
 		idle := nodesWhere(g, func(in ssa.Instruction) bool {
 			a := atomicCall(in)
 			return a != nil && a.Field == m.Status && a.Op == "Store"
@@ -628,8 +683,8 @@ func (m *mboxRoles) notPausedFact(f cmpFact) bool { return f.impliesEq(0) || f.i
 func c01Release(p *Program, r *Report) {
 	c01Each(p, r, func(m *mboxRoles) {
 		tn := m.T.Obj().Name()
-		g := p.ig(m.Consumer)
-		work := p.workNodes(m, m.Consumer)
+		g := m.consumerGraph(p)
+		work := p.workNodesG(m, g)
 		idle := nodesWhere(g, func(in ssa.Instruction) bool {
 			a := atomicCall(in)
 			if a == nil || a.Field != m.Status || a.Op != "Store" {
@@ -774,7 +829,7 @@ func c01Counters(p *Program, r *Report) {
 	c01Each(p, r, func(m *mboxRoles) {
 		tn := m.T.Obj().Name()
 		for _, fn := range m.Loops {
-			g := p.ig(fn)
+			g := p.igx(fn)
 			for _, q := range []struct {
 				name string
 				q, c *types.Var
@@ -840,6 +895,11 @@ func c01Counters(p *Program, r *Report) {
 		loops := map[*ssa.Function]bool{}
 		for _, l := range m.Loops {
 			loops[l] = true
+			for _, f := range p.igx(l).Fns {
+				if p.igx(l).owns(p, f) {
+					loops[f] = true // a single-use helper of the loop
+				}
+			}
 		}
 		for _, fn := range p.Mod {
 			for _, in := range p.ig(fn).Nodes {
@@ -868,7 +928,7 @@ func c01Handoff(p *Program, r *Report) {
 			loops[l] = true
 		}
 		for _, fn := range m.Loops {
-			g := p.ig(fn)
+			g := p.igx(fn)
 			handles := nodesWhere(g, m.isHandleInvoke)
 			anyPop := nodesWhere(g, func(in ssa.Instruction) bool { return popOf(in, m.SysQ) || popOf(in, m.UsrQ) })
 			for pn := range anyPop {
@@ -1019,7 +1079,7 @@ func c01PauseGate(p *Program, r *Report) {
 	c01Each(p, r, func(m *mboxRoles) {
 		tn := m.T.Obj().Name()
 		for _, fn := range m.Loops {
-			g := p.ig(fn)
+			g := p.igx(fn)
 			handles := nodesWhere(g, m.isHandleInvoke)
 			usrPops := nodesWhere(g, func(in ssa.Instruction) bool { return popOf(in, m.UsrQ) })
 			sysPops := nodesWhere(g, func(in ssa.Instruction) bool { return popOf(in, m.SysQ) })
@@ -1082,7 +1142,7 @@ func c01PauseGate(p *Program, r *Report) {
 func c01NoSpin(p *Program, r *Report) {
 	c01Each(p, r, func(m *mboxRoles) {
 		tn := m.T.Obj().Name()
-		g := p.ig(m.Consumer)
+		g := m.consumerGraph(p)
 		idle := nodesWhere(g, func(in ssa.Instruction) bool {
 			a := atomicCall(in)
 			return a != nil && a.Field == m.Status && a.Op == "Store"
